@@ -634,3 +634,101 @@ pub open spec fn width_of(c: char) -> int { match char_width(c) { Some(w) => w a
 pub open spec fn xlate(cs: Charset, g0: [char; 256], g1: [char; 256], c: char) -> char {
     if c as u32 > 255 { c } else if cs == Charset::G1 { g1@[c as int] } else { g0@[c as int] }
 }
+
+// ---- draw: per-character semantics written from the C04 statement (relations between screen states) ----
+/// the cell written for text `d` with the cursor's current rendition
+pub open spec fn attr_cell(s: Screen, d: Seq<char>) -> Cell { Cell { data: d, ..cv(s.cursor.attr) } }
+
+/// relational form of linefeed's contract (every clause of linefeed's `ensures` except wf)
+#[verifier::opaque]
+pub open spec fn linefeed_post(o: Screen, n: Screen) -> bool {
+    &&& (o.cursor.y != bottom_of(o) ==> n.buffer@ == o.buffer@ && n.dirty@ == o.dirty@ && n.cursor.y == vmin(o.cursor.y + 1, bottom_of(o)))
+    &&& (o.cursor.y == bottom_of(o) ==> n.cursor.y == o.cursor.y
+            && (forall|y: u32, x: u32| #![trigger obs(n, y, x)] y < o.lines && x < o.columns ==> obs(n, y, x) == (
+                    if top_of(o) <= y && y < bottom_of(o) { obs(o, (y + 1) as u32, x) } else if y == bottom_of(o) { blank(o) } else { obs(o, y, x) }))
+            && (forall|r: u32| #![trigger n.dirty@.contains(r)] n.dirty@.contains(r) == (o.dirty@.contains(r) || r < o.lines)))
+    &&& n.cursor.x == (if o.mode@.contains(LNM) { 0 } else { o.cursor.x })
+    &&& same_but_cells_dirty_cxy(n, o)
+}
+/// relational form of insert_characters' contract
+#[verifier::opaque]
+pub open spec fn ich_post(o: Screen, count: Option<u32>, n: Screen) -> bool {
+    &&& (forall|y: u32, x: u32| #![trigger obs(n, y, x)] y < o.lines && x < o.columns ==> obs(n, y, x) == (
+            if y == o.cursor.y && x >= o.cursor.x {
+                if x - eff(count) >= o.cursor.x { obs(o, y, (x - eff(count)) as u32) } else { blank(o) }
+            } else { obs(o, y, x) }))
+    &&& same_but_cells_dirty(n, o)
+    &&& n.dirty@ == o.dirty@.insert(o.cursor.y)
+}
+/// the pending-wrap row is marked and the cursor returns to column 0 (what draw does before the linefeed)
+pub open spec fn cr_mark(o: Screen, n: Screen) -> bool {
+    n.cursor.x == 0 && n.cursor.y == o.cursor.y && n.dirty@ == o.dirty@.insert(o.cursor.y) && same_but_cells_dirty_cxy(n, o) && n.buffer@ == o.buffer@
+}
+/// step 1: with the cursor past the last column, wrap (DECAWM) or step back onto the last column(s)
+pub open spec fn wrap_rel(a: Screen, w: int, b: Screen) -> bool {
+    if a.cursor.x == a.columns {
+        if a.mode@.contains(DECAWM) {
+            exists|m: Screen| #[trigger] cr_mark(a, m) && linefeed_post(m, b)
+        } else if w > 0 {
+            same_but_cursor_xy(b, a) && b.cursor.y == a.cursor.y && b.cursor.x == vmax(a.columns - w, 0)
+        } else { same_all(b, a) }
+    } else { same_all(b, a) }
+}
+/// step 2: insert mode shifts the rest of the row right by the character's width
+pub open spec fn irm_rel(a: Screen, w: int, b: Screen) -> bool {
+    if a.mode@.contains(IRM) && w > 0 { ich_post(a, Some(w as u32), b) } else { same_all(b, a) }
+}
+/// step 3 for a printable character of width 1 or 2: lead cell (+ empty placeholder), cursor advances by the width
+pub open spec fn put_rel(a: Screen, c: char, w: int, b: Screen) -> bool {
+    &&& (forall|y: u32, x: u32| #![trigger obs(b, y, x)] y < a.lines && x < a.columns ==> obs(b, y, x) == (
+            if y == a.cursor.y && x == a.cursor.x { attr_cell(a, seq![c]) }
+            else if w == 2 && y == a.cursor.y && x == a.cursor.x + 1 { attr_cell(a, ""@) }
+            else { obs(a, y, x) }))
+    &&& b.cursor.x == vmin(a.cursor.x + w, a.columns as int) && b.cursor.y == a.cursor.y
+    &&& same_but_cells_dirty_cx(b, a) && b.dirty@ == a.dirty@
+}
+/// step 3 for a zero-width combining mark: appended to the cell before the cursor (or to the last cell of the previous row;
+/// at the home position there is no such cell and nothing changes)
+pub open spec fn comb_rel(a: Screen, c: char, b: Screen) -> bool {
+    let has_target = !(a.cursor.x == 0 && a.cursor.y == 0);
+    let ty: int = if a.cursor.x > 0 { a.cursor.y as int } else { a.cursor.y - 1 };
+    let tx: int = if a.cursor.x > 0 { a.cursor.x - 1 } else { a.columns - 1 };
+    &&& (forall|y: u32, x: u32| #![trigger obs(b, y, x)] y < a.lines && x < a.columns ==> obs(b, y, x) == (
+            if has_target && y == ty && x == tx { Cell { data: nfc(obs(a, y, x).data).push(c), ..obs(a, y, x) } } else { obs(a, y, x) }))
+    &&& same_but_cells_dirty(b, a)
+    &&& b.dirty@ == (if a.cursor.x == 0 && a.cursor.y > 0 { a.dirty@.insert(ty as u32) } else { a.dirty@ })
+}
+/// one (already translated) character
+pub open spec fn draw_char(a: Screen, c: char, b: Screen) -> bool {
+    let w = width_of(c);
+    if w == 0 && !is_comb(c) { same_all(b, a) }
+    else {
+        exists|a1: Screen, a2: Screen| #![trigger wrap_rel(a, w, a1), irm_rel(a1, w, a2)]
+            wrap_rel(a, w, a1) && irm_rel(a1, w, a2) && (if w >= 1 { put_rel(a2, c, w, b) } else { comb_rel(a2, c, b) })
+    }
+}
+/// a whole (translated) text, character by character (recursion on the last character, to match the loop)
+pub open spec fn draw_seq(a: Screen, t: Seq<char>, b: Screen) -> bool
+    decreases t.len(),
+{
+    if t.len() == 0 { b == a }
+    else { exists|m: Screen| #![trigger draw_char(m, t.last(), b)] draw_seq(a, t.drop_last(), m) && draw_char(m, t.last(), b) }
+}
+pub open spec fn xl_seq(s: Screen, t: Seq<char>) -> Seq<char> {
+    Seq::new(t.len(), |i: int| xlate(s.charset, s.g0_charset, s.g1_charset, t[i]))
+}
+
+/// `C.to_string()` for a char C
+#[verifier::external_body]
+pub fn char_to_string(c: char) -> (r: String)
+    ensures r@ == seq![c],
+{
+    c.to_string()
+}
+/// `S.to_string()` for a string literal S
+#[verifier::external_body]
+pub fn str_to_string(s: &str) -> (r: String)
+    ensures r@ == s@,
+{
+    s.to_string()
+}
